@@ -374,10 +374,32 @@ def gen_program(rng):
             "#endif"]) + "\n"
     abs_units = []
 
-    def body(i):
+    shapes = {"fragment": 0, "xmacro": 0, "stmtmacro": 0}
+
+    def body(i, udir=""):
         kind = rng.choice(["straight", "ifelse", "for", "while", "switch", "nested", "ternary"])
         k, c, c2 = rng.randrange(2, 6), rng.randrange(1, 20), rng.randrange(1, 9)
         L = ["unsigned fn_%d(unsigned a)" % i, "{", "    unsigned r = a;"]
+        pre = udir + "/" if udir else ""
+        # files that own executable lines although no function starts in them (gcov JSON: "functions": []):
+        # a fragment of statements #included inside the body, an X-macro table expanded inside the body;
+        # and a header that only contributes a macro expanding to statements (its lines are attributed to the use site)
+        if rng.random() < 0.18:
+            shapes["fragment"] += 1
+            files[pre + "frag_%d.inc" % i] = "\n".join(["    r += a * %d;" % k, "    if (r > %d)" % c, "        r -= %d;" % c2,
+                                                          "    else", "        r += 1;"]) + "\n"
+            L += ['#include "frag_%d.inc"' % i]
+        if rng.random() < 0.18:
+            shapes["xmacro"] += 1
+            files[pre + "ops_%d.def" % i] = "".join("OP(%d, %d)\n" % (j, rng.randrange(1, 30)) for j in range(rng.randrange(2, 5)))
+            L += ["    switch (a %% %d) {" % (k + 1), "#define OP(k, v) case k: \\", "        r += v; \\", "        break;",
+                  '#include "ops_%d.def"' % i, "#undef OP", "    default:", "        r ^= 1;", "    }"]
+        if rng.random() < 0.18:
+            shapes["stmtmacro"] += 1
+            files[pre + "mac_%d.h" % i] = "\n".join(["#ifndef MAC_%d_H" % i, "#define MAC_%d_H" % i, "#define BUMP_%d(r, a) do { \\" % i,
+                                                       "    if ((a) > %d) \\" % c2, "        (r) += 2; \\", "    else \\",
+                                                       "        (r) += 1; \\", "} while (0)", "#endif"]) + "\n"
+            L = ['#include "mac_%d.h"' % i] + L + ["    BUMP_%d(r, a);" % i]
         if kind == "straight":
             L += ["    r = r * %d + %d;" % (k, c), "    r ^= %d;" % c2]
         elif kind == "ifelse":
@@ -426,7 +448,7 @@ def gen_program(rng):
         if inc_ok:
             L.append('#include "absinc.h"')
         for i in fs:
-            b = body(i)
+            b = body(i, os.path.dirname(name))
             if not hdr_ok:
                 b = [x for x in b if "twice(" not in x]
             if inc_ok and rng.random() < 0.7:
@@ -459,7 +481,7 @@ def gen_program(rng):
     if runs and rng.random() < 0.35:
         stale = rng.sample(units, min(len(units), rng.choice([1, 1, 2])))
     return {"files": files, "units": units, "runs": runs, "pair_line": pair, "stale": stale,
-            "abs_include": abs_include, "abs_units": abs_units}
+            "abs_include": abs_include, "abs_units": abs_units, "shapes": shapes}
 
 
 # ----------------------------------------------------------------------------
